@@ -151,6 +151,9 @@ Proofs/SlotWitness.vos Proofs/SlotWitness.vok Proofs/SlotWitness.required_vos: P
 Proofs/SlotWitnessCheck.vo Proofs/SlotWitnessCheck.glob Proofs/SlotWitnessCheck.v.beautified Proofs/SlotWitnessCheck.required_vo: Proofs/SlotWitnessCheck.v Base/Bytes.vo Base/Dec.vo Spec/Crc16.vo Spec/Slot.vo Gen/Crc16.vo Model/SlotKeys.vo Proofs/SlotWitness.vo
 Proofs/SlotWitnessCheck.vio: Proofs/SlotWitnessCheck.v Base/Bytes.vio Base/Dec.vio Spec/Crc16.vio Spec/Slot.vio Gen/Crc16.vio Model/SlotKeys.vio Proofs/SlotWitness.vio
 Proofs/SlotWitnessCheck.vos Proofs/SlotWitnessCheck.vok Proofs/SlotWitnessCheck.required_vos: Proofs/SlotWitnessCheck.v Base/Bytes.vos Base/Dec.vos Spec/Crc16.vos Spec/Slot.vos Gen/Crc16.vos Model/SlotKeys.vos Proofs/SlotWitness.vos
+Proofs/SplitProofs.vo Proofs/SplitProofs.glob Proofs/SplitProofs.v.beautified Proofs/SplitProofs.required_vo: Proofs/SplitProofs.v Proofs/Crc64Proofs.vo Proofs/DigestProofs.vo Base/Bytes.vo Base/Endian.vo Base/Dec.vo Spec/Crc64.vo Model/Digest.vo Model/Lzf.vo Model/Rdb.vo Spec/RdbFormat.vo Spec/RdbRecords.vo Gen/Crc64.vo Proofs/RdbProofs.vo
+Proofs/SplitProofs.vio: Proofs/SplitProofs.v Proofs/Crc64Proofs.vio Proofs/DigestProofs.vio Base/Bytes.vio Base/Endian.vio Base/Dec.vio Spec/Crc64.vio Model/Digest.vio Model/Lzf.vio Model/Rdb.vio Spec/RdbFormat.vio Spec/RdbRecords.vio Gen/Crc64.vio Proofs/RdbProofs.vio
+Proofs/SplitProofs.vos Proofs/SplitProofs.vok Proofs/SplitProofs.required_vos: Proofs/SplitProofs.v Proofs/Crc64Proofs.vos Proofs/DigestProofs.vos Base/Bytes.vos Base/Endian.vos Base/Dec.vos Spec/Crc64.vos Model/Digest.vos Model/Lzf.vos Model/Rdb.vos Spec/RdbFormat.vos Spec/RdbRecords.vos Gen/Crc64.vos Proofs/RdbProofs.vos
 Proofs/SupervisorProofs.vo Proofs/SupervisorProofs.glob Proofs/SupervisorProofs.v.beautified Proofs/SupervisorProofs.required_vo: Proofs/SupervisorProofs.v Base/Bytes.vo Model/Supervisor.vo
 Proofs/SupervisorProofs.vio: Proofs/SupervisorProofs.v Base/Bytes.vio Model/Supervisor.vio
 Proofs/SupervisorProofs.vos Proofs/SupervisorProofs.vok Proofs/SupervisorProofs.required_vos: Proofs/SupervisorProofs.v Base/Bytes.vos Model/Supervisor.vos
@@ -160,9 +163,9 @@ Proofs/WorkersProofs.vos Proofs/WorkersProofs.vok Proofs/WorkersProofs.required_
 Proofs/WriterProofs.vo Proofs/WriterProofs.glob Proofs/WriterProofs.v.beautified Proofs/WriterProofs.required_vo: Proofs/WriterProofs.v Base/Bytes.vo Base/Endian.vo Base/Dec.vo Model/RespCodec.vo Spec/Crc64.vo Model/Digest.vo Model/Rdb.vo Model/Cupcake.vo Spec/RdbFormat.vo Spec/RdbRecords.vo Proofs/DigestProofs.vo Proofs/RdbProofs.vo Gen/Crc64.vo Proofs/CupcakeProofs.vo
 Proofs/WriterProofs.vio: Proofs/WriterProofs.v Base/Bytes.vio Base/Endian.vio Base/Dec.vio Model/RespCodec.vio Spec/Crc64.vio Model/Digest.vio Model/Rdb.vio Model/Cupcake.vio Spec/RdbFormat.vio Spec/RdbRecords.vio Proofs/DigestProofs.vio Proofs/RdbProofs.vio Gen/Crc64.vio Proofs/CupcakeProofs.vio
 Proofs/WriterProofs.vos Proofs/WriterProofs.vok Proofs/WriterProofs.required_vos: Proofs/WriterProofs.v Base/Bytes.vos Base/Endian.vos Base/Dec.vos Model/RespCodec.vos Spec/Crc64.vos Model/Digest.vos Model/Rdb.vos Model/Cupcake.vos Spec/RdbFormat.vos Spec/RdbRecords.vos Proofs/DigestProofs.vos Proofs/RdbProofs.vos Gen/Crc64.vos Proofs/CupcakeProofs.vos
-Props/C01.vo Props/C01.glob Props/C01.v.beautified Props/C01.required_vo: Props/C01.v Base/Bytes.vo Base/Endian.vo Spec/Crc64.vo Gen/Crc64.vo Gen/Rdb.vo Model/Digest.vo Model/Rdb.vo Spec/RdbFormat.vo Spec/RdbRecords.vo Proofs/RdbProofs.vo Proofs/DigestProofs.vo
-Props/C01.vio: Props/C01.v Base/Bytes.vio Base/Endian.vio Spec/Crc64.vio Gen/Crc64.vio Gen/Rdb.vio Model/Digest.vio Model/Rdb.vio Spec/RdbFormat.vio Spec/RdbRecords.vio Proofs/RdbProofs.vio Proofs/DigestProofs.vio
-Props/C01.vos Props/C01.vok Props/C01.required_vos: Props/C01.v Base/Bytes.vos Base/Endian.vos Spec/Crc64.vos Gen/Crc64.vos Gen/Rdb.vos Model/Digest.vos Model/Rdb.vos Spec/RdbFormat.vos Spec/RdbRecords.vos Proofs/RdbProofs.vos Proofs/DigestProofs.vos
+Props/C01.vo Props/C01.glob Props/C01.v.beautified Props/C01.required_vo: Props/C01.v Base/Bytes.vo Base/Endian.vo Spec/Crc64.vo Gen/Crc64.vo Gen/Rdb.vo Model/Digest.vo Model/Rdb.vo Spec/RdbFormat.vo Spec/RdbRecords.vo Proofs/RdbProofs.vo Proofs/DigestProofs.vo Proofs/SplitProofs.vo
+Props/C01.vio: Props/C01.v Base/Bytes.vio Base/Endian.vio Spec/Crc64.vio Gen/Crc64.vio Gen/Rdb.vio Model/Digest.vio Model/Rdb.vio Spec/RdbFormat.vio Spec/RdbRecords.vio Proofs/RdbProofs.vio Proofs/DigestProofs.vio Proofs/SplitProofs.vio
+Props/C01.vos Props/C01.vok Props/C01.required_vos: Props/C01.v Base/Bytes.vos Base/Endian.vos Spec/Crc64.vos Gen/Crc64.vos Gen/Rdb.vos Model/Digest.vos Model/Rdb.vos Spec/RdbFormat.vos Spec/RdbRecords.vos Proofs/RdbProofs.vos Proofs/DigestProofs.vos Proofs/SplitProofs.vos
 Props/C02.vo Props/C02.glob Props/C02.v.beautified Props/C02.required_vo: Props/C02.v Base/Bytes.vo Base/Endian.vo Model/Rdb.vo Model/Cupcake.vo Model/Restore.vo Proofs/RestoreProofs.vo
 Props/C02.vio: Props/C02.v Base/Bytes.vio Base/Endian.vio Model/Rdb.vio Model/Cupcake.vio Model/Restore.vio Proofs/RestoreProofs.vio
 Props/C02.vos Props/C02.vok Props/C02.required_vos: Props/C02.v Base/Bytes.vos Base/Endian.vos Model/Rdb.vos Model/Cupcake.vos Model/Restore.vos Proofs/RestoreProofs.vos
